@@ -5,6 +5,7 @@ import LettreVerif.Proofs.MailboxEnc
 import LettreVerif.Proofs.Wire
 import LettreVerif.Proofs.TextFold
 import LettreVerif.Proofs.Utf8Runs
+import LettreVerif.Proofs.ContentType
 /-!
 # C02 — Header section is well-formed and injection-proof for any supplied text
 
@@ -117,6 +118,11 @@ theorem space_run_witness :
     (HeaderReader.physicalLines [] ((str "X") ++ [58, 32] ++ encodeValue opts 1 (List.replicate 1000 32 ++ [120]))).any
       (fun l => l.length > 998) = true := by
   decide +kernel
+
+/-- **Content-Type** (`ContentType::display`, which since `fix:` b49469c only folds a printable-ASCII media type and sends
+    anything else through `HeaderValue::new`): whatever the media type's text — any string — the value is well formed. -/
+theorem content_type_wf (text : List Char) : scan .norm (contentTypeValue (encodeUtf8 text)) = some .norm :=
+  contentTypeValue_wf _ (Utf8Runs.contRuns_str text)
 
 /-! ## line lengths of text values -/
 
